@@ -502,9 +502,13 @@ func (s *Storage) Delete(di *DeleteInput) error {
 			continue
 		}
 
-		st.Get(zeroTime, maxTime, func(depth int, _, _ uint64, t time.Time, _ *big.Rat) {
+		// Get would stop at the first present node of every branch and leave the
+		// trees of the nodes below it behind; walk every node instead
+		st.DeleteDataBefore(maxTime, func(depth int, t time.Time) {
 			treeKey := skk.TreeKey(depth, t)
-			err = s.trees.Delete(treeKey)
+			if delErr := s.trees.Delete(treeKey); delErr != nil {
+				err = delErr
+			}
 		})
 		if err != nil {
 			return err
